@@ -275,8 +275,8 @@ func checkCopyMethod(r *Run, cp *packages.Package, n *types.Named, fd *ast.FuncD
 				if id, ok := call.Fun.(*ast.Ident); ok && id.Name == "make" {
 					fresh = true
 				}
-				if fn := calleeOf(info, call); fn != nil && strings.HasPrefix(fn.Name(), "New") {
-					fresh = true
+				if fn := calleeOf(info, call); fn != nil && (strings.HasPrefix(fn.Name(), "New") || (fn.Pkg() == cp.Types && fn.Name() == "Copy")) {
+					fresh = true // a constructor, or the package's deep Copy of the underlying container
 				}
 			}
 			if _, ok := m.(*ast.CompositeLit); ok {
@@ -308,6 +308,21 @@ func checkCopyMethod(r *Run, cp *packages.Package, n *types.Named, fd *ast.FuncD
 						if inner, ok := ast.Unparen(kv.Value).(*ast.CompositeLit); ok {
 							if ist, ok := fv.Type().Underlying().(*types.Struct); ok {
 								collectLit(inner, ist)
+							}
+						}
+						// … or a same-package function whose whole body returns such a literal (a copy helper for the
+						// embedded struct): its fields are judged as if the literal stood here
+						if call, ok := ast.Unparen(kv.Value).(*ast.CallExpr); ok {
+							if ist, ok := fv.Type().Underlying().(*types.Struct); ok {
+								if fn := calleeOf(info, call); fn != nil && fn.Pkg() == cp.Types {
+									if hd := FuncDecls(cp)[declKeyOf(fn)]; hd != nil && hd.Body != nil && len(hd.Body.List) == 1 {
+										if rs, ok := hd.Body.List[0].(*ast.ReturnStmt); ok && len(rs.Results) == 1 {
+											if inner, ok := ast.Unparen(rs.Results[0]).(*ast.CompositeLit); ok {
+												collectLit(inner, ist)
+											}
+										}
+									}
+								}
 							}
 						}
 					}
@@ -491,7 +506,7 @@ func dispatchChain(p *packages.Package, decls map[string]*ast.FuncDecl, name str
 			return true
 		}
 		sig := fn.Type().(*types.Signature)
-		if sig.Results().Len() == 2 && strings.Contains(sig.Results().At(0).Type().String(), "Cursor") && len(call.Args) == 1 {
+		if sig.Results().Len() >= 1 && sig.Results().Len() <= 2 && strings.Contains(sig.Results().At(0).Type().String(), "Cursor") && len(call.Args) == 1 {
 			if _, isId := call.Args[0].(*ast.Ident); isId {
 				chain = append(chain, dispatchChain(p, decls, fn.Name(), seen)...)
 			}
@@ -708,8 +723,8 @@ func checkCypherWalkers(r *Run) {
 	wp := r.MustPkg("cypher/models/walk")
 	cp := r.MustPkg("cypher/models/cypher")
 	decls := FuncDecls(wp)
-	structChain := dispatchChain(wp, decls, "newCypherStructuralWalkCursor", map[string]bool{})
-	semChain := dispatchChain(wp, decls, "newCypherWalkCursor", map[string]bool{})
+	structChain := dispatchChain(wp, decls, walkerRoot(wp, "CypherStructural", "newCypherStructuralWalkCursor"), map[string]bool{})
+	semChain := dispatchChain(wp, decls, walkerRoot(wp, "Cypher", "newCypherWalkCursor"), map[string]bool{})
 	if len(structChain) < 3 || len(semChain) < 3 {
 		r.Fatal("walker dispatch chains not recognised (structural %v, semantic %v)", structChain, semChain)
 	}
@@ -721,7 +736,7 @@ func checkCypherWalkers(r *Run) {
 	exempt := r.LoadTable("c11_walker_exempt")
 
 	// nil-root guard
-	for _, name := range []string{"newCypherStructuralWalkCursor", "newCypherWalkCursor", "newSQLWalkCursor"} {
+	for _, name := range []string{walkerRoot(wp, "CypherStructural", "newCypherStructuralWalkCursor"), walkerRoot(wp, "Cypher", "newCypherWalkCursor"), walkerRoot(wp, "PgSQL", "newSQLWalkCursor")} {
 		fd := decls[name]
 		ok := false
 		if fd != nil && len(fd.Body.List) > 0 {
@@ -866,7 +881,7 @@ func checkSQLWalker(r *Run) {
 	wp := r.MustPkg("cypher/models/walk")
 	pg := r.MustPkg("cypher/models/pgsql")
 	decls := FuncDecls(wp)
-	chain := dispatchChain(wp, decls, "newSQLWalkCursor", map[string]bool{})
+	chain := dispatchChain(wp, decls, walkerRoot(wp, "PgSQL", "newSQLWalkCursor"), map[string]bool{})
 	if len(chain) == 0 {
 		r.Fatal("newSQLWalkCursor dispatch not recognised")
 	}
@@ -1077,4 +1092,30 @@ func coreTypeOf(tp *types.TypeParam) types.Type {
 		}
 	}
 	return core
+}
+
+// walkerRoot: the cursor constructor the exported walker hands to Generic (its third argument), whatever its private
+// name; fallback is the name it has today.
+func walkerRoot(wp *packages.Package, exported, fallback string) string {
+	fd := FuncDecls(wp)[exported]
+	if fd == nil || fd.Body == nil {
+		return fallback
+	}
+	name := fallback
+	ast.Inspect(fd.Body, func(n ast.Node) bool {
+		call, ok := n.(*ast.CallExpr)
+		if !ok || len(call.Args) != 3 {
+			return true
+		}
+		if fn := calleeOf(wp.TypesInfo, call); fn == nil || fn.Name() != "Generic" {
+			return true
+		}
+		if id, ok := ast.Unparen(call.Args[2]).(*ast.Ident); ok {
+			if f, ok := wp.TypesInfo.Uses[id].(*types.Func); ok && f.Pkg() == wp.Types {
+				name = f.Name()
+			}
+		}
+		return true
+	})
+	return name
 }
